@@ -34,3 +34,19 @@ Proof. intros s n. unfold q_var, q_fn. rewrite fold_name_idem. split; reflexivit
 Example C19_fold_example : fold_name [937]%N = fold_name [969]%N /\ fold_name [8490]%N = fold_name [75]%N /\ fold_name [304]%N = [105; 775]%N /\ fold_name [223]%N <> fold_name [115;115]%N.
 Proof. vm_compute. repeat split; try reflexivity. discriminate. Qed.
 Print Assumptions C19_fold_idempotent.
+
+(* "Consequently evaluating a tree is unaffected by changing the letter case of the identifiers in it": for the standard-library environment (StdEnv.v), respelling the variables and function
+   names of a script by any map that keeps the folded spelling leaves the value unchanged, an error an error of the same kind (the names an error carries are the spelled ones), and the
+   validator's verdict a verdict of the same kind - every script, every set of variables; proved for every environment that looks names up by their folded spelling *)
+Require Import Types Generic Lang Opt IO StdEnv RespellFacts.
+Theorem C19_script_respelled : forall off vars f e, (forall n, fold_name (f n) = fold_name n) -> res_sim (eval (std_env off vars) (respell f e)) (eval (std_env off vars) e).
+Proof. exact script_respelled. Qed.
+Theorem C19_script_value_respelled : forall off vars f e v, (forall n, fold_name (f n) = fold_name n) -> eval (std_env off vars) e = Ok v -> eval (std_env off vars) (respell f e) = Ok v.
+Proof. exact script_value_respelled. Qed.
+Theorem C19_script_validation_respelled : forall off vars f e, (forall n, fold_name (f n) = fold_name n) ->
+  cerr_kind (check_names (std_env off vars) (respell f e)) = cerr_kind (check_names (std_env off vars) e).
+Proof. exact script_validation_respelled. Qed.
+(* a respelling that keeps the folded spelling exists for every name: its lower-cased form *)
+Example C19_respelling_inhabited : forall n, fold_name (fold_name n) = fold_name n.
+Proof. exact fold_name_idem. Qed.
+Print Assumptions C19_script_respelled.
